@@ -433,7 +433,19 @@ class Gen:
         op = oname.lower()
         va = ip + '_val' if rng.random() < 0.6 else None
         attr = op + '_items'
-        if rng.random() < 0.5:
+        r = rng.random()
+        if r < 0.25:
+            # the other way round: a list in YAML, a dict keyed by name in
+            # Python; the items do not hold the name themselves
+            item['params'] = [q for q in item['params']
+                              if q['name'] != ip + '_key']
+            ptype = [rng.choice(['dict', 'map']), 'str', ['cls', iname]]
+            # (no value attribute: seq_attribute_to_map would produce the
+            # short form 'name: value', which is no mapping for the item)
+            sav = [['seq_to_map', attr, 'name', None]]
+            swe = [['map_to_seq', attr, 'name', None]]
+            extra = {}
+        elif r < 0.6:
             ptype = [rng.choice(['list', 'seq']), ['cls', iname]]
             sav = [['map_to_seq', attr, ip + '_key', va]]
             swe = [['seq_to_map', attr, ip + '_key', va]]
